@@ -245,9 +245,10 @@ func (c *AttackCtx) Apply(root *etree.Element, op Op) *etree.Element {
 				}
 				c.note("strip-sig:all")
 			} else {
-				s := ss[op.A%len(ss)]
-				c.note("strip-sig:" + s.Parent().Tag)
-				s.Parent().RemoveChild(s)
+				if s := ss[op.A%len(ss)]; s.Parent() != nil {
+					c.note("strip-sig:" + s.Parent().Tag)
+					s.Parent().RemoveChild(s)
+				}
 			}
 		}
 	case "id-game":
